@@ -143,12 +143,10 @@ def parseImpl (impl : String) : Impl :=
 def wfVerdict (wf : String) : String :=
   if wf = "ok" then "ok"
   else
-    let ps := wf.splitOn ","
-    match ps.find? (fun p => !p.startsWith "m:") with
-    | some p => "fail:not-wellformed:" ++ p
-    -- only `m:` items (head checksum conventions, which no consumer of an embedded font
-    -- checks): recorded in the answer, not a violation of "well-formed" as a reader sees it
-    | none => "ok"
+    -- every structural problem the independent reader finds is a violation of "the subset is a
+    -- well-formed font file" — the head checksum conventions (`m:` items: head checksum computed
+    -- with checkSumAdjustment = 0, whole file sums to 0xB1B0AFBA) included
+    "fail:not-wellformed:" ++ ((wf.splitOn ",").headD wf)
 
 /-- the property's per-glyph clause for one requested key (`g` = original glyph id, `g'` = the
     glyph id it resolves to in the subset) -/
